@@ -32,7 +32,7 @@ fn main() {
         }
     };
     let code = match prop {
-        "C01" | "C13" => e1::run(prop, tier),
+        "C01" | "C13" | "C04" | "C05" | "C10" | "C12" | "C16" => e1::run(prop, tier),
         _ => {
             eprintln!("unknown property {}", prop);
             2
